@@ -357,6 +357,7 @@ func init() {
 	})
 	reg("WatchGlobals", func(m *Machine, fn *ssa.Function, a []Value) Value {
 		m.installWriteLog()
+		m.watchGlobals = true
 		seen := map[*Cell]bool{}
 		for g, c := range m.globals {
 			if g.Pkg == nil {
